@@ -112,6 +112,57 @@ def main():
             verdict(hist[0]), verdict(hist[-1]), how))
     out.append("\nCaught now: **%d of %d**.\n" % (caught, total))
 
+    # per-round summary: how many were caught by the machinery as it was when the round was first tried, and now
+    rounds = {}
+    for d in sorted(os.listdir(sd)) if os.path.isdir(sd) else []:
+        mp = os.path.join(sd, d, "meta.json")
+        if not os.path.exists(mp):
+            continue
+        m = json.load(open(mp))
+        hist = m.get("check_history", [])
+        if not hist:
+            continue
+        mr = re.search(r"-r(\d+)-", d)
+        r = int(mr.group(1)) if mr else 1
+        t = rounds.setdefault(r, [0, 0, 0, 0])
+        t[0] += 1
+        t[1] += any(c["exit"] == 1 for c in hist[0]["checks"].values())
+        t[2] += any(c["exit"] == 1 for c in hist[-1]["checks"].values())
+        t[3] += any(c["exit"] == 1 for c in hist[-1]["checks"].values()) and any(
+            (x or {}).get("kind") == "concrete" for x in (hist[-1].get("first_replays") or []))
+    out.append("| seeding round | changes | caught when first tried | caught now | of those with a concrete replay among the first replays |")
+    out.append("|---|---|---|---|---|")
+    for r in sorted(rounds):
+        out.append("| %d | %d | %d | %d | %d |" % (r, rounds[r][0], rounds[r][1], rounds[r][2], rounds[r][3]))
+
+    out.append("\n### 9.5b Behaviour-preserving rewrites (false-alarm test; generated from refactors/*/meta.json)\n")
+    out.append("Each rewrite was written by a fresh sub-agent that saw only the property text and a scratch worktree, keeps the pinned suite "
+               "green and produces an identical digest of an equivalence program on the unchanged and the rewritten tree. `quiet` = the "
+               "property's check exits 0 on the rewritten tree; `note` = exit 0 through the translator fallback of 9.7 (NOTE line); `ALARM` = exit 1.\n")
+    out.append("| rewrite | kind | what was rewritten | first run | now |")
+    out.append("|---|---|---|---|---|")
+    rd = os.path.join(VERIF, "refactors")
+    quiet = tot = 0
+    for d in sorted(os.listdir(rd)) if os.path.isdir(rd) else []:
+        mp = os.path.join(rd, d, "meta.json")
+        if not os.path.exists(mp):
+            continue
+        m = json.load(open(mp))
+        hist = m.get("check_history", [])
+        if not hist:
+            continue
+
+        def rv(h):
+            cs = list(h["checks"].values())
+            if any(c["exit"] != 0 for c in cs):
+                return "ALARM"
+            return "note" if any(c.get("fallback_note") for c in cs) else "quiet"
+        tot += 1
+        quiet += rv(hist[-1]) != "ALARM"
+        out.append("| %s | %s | %s | %s | %s |" % (d, str(m.get("kind", ""))[:40].replace("|", "/"), m.get("summary", "").replace("|", "\\|").replace("\n", " ")[:220],
+                                                rv(hist[0]), rv(hist[-1])))
+    out.append("\nNo alarm now: **%d of %d**.\n" % (quiet, tot))
+
     path = os.path.join(VERIF, "DESIGN.md")
     s = open(path).read()
     block = BEGIN + "\n\n" + "\n".join(out) + "\n" + END
